@@ -4,6 +4,10 @@
 // is deterministic" verdict would be worthless.
 use std::collections::HashSet;
 
+extern "C" {
+    fn gettid() -> i32;
+}
+
 fn main() {
     let mut out = String::new();
     for n in 2..=6usize {
@@ -23,12 +27,13 @@ fn main() {
     let t0 = std::time::Instant::now();
     let dt = t0.elapsed().as_nanos();
     println!(
-        "{} heap={:p} stack={:p} wall={} dt={} pid={}",
+        "{} heap={:p} stack={:p} wall={} dt={} pid={} tid={}",
         out,
         &*boxed,
         &local,
         wall,
         dt,
-        std::process::id()
+        std::process::id(),
+        unsafe { gettid() }
     );
 }
